@@ -274,7 +274,7 @@ def cross_case(res, rng, tier, ci, stats):
         err = float(tn.linalg.norm(dense_of(x) - ref) / tn.linalg.norm(ref))
         box["ratio"] = err / eps
         stats.append((label, eps, err / eps))
-        if err > C_CROSS * eps and err > 1e-11:
+        if not (err <= C_CROSS * eps or err <= 1e-11):      # NaN-safe
             zf = float((ref == 0).double().mean())
             pre = "[finding:C14/cross-sparse-target] " if zf >= 0.5 else ""
             return pre + "relative error %.3g = %.3g*eps exceeds %g*eps (%s N=%s)" % (err, err / eps, C_CROSS, label, N)
@@ -372,7 +372,7 @@ def fi_case(rng, tier, ci, stats):
             return "result shape %s, expected %s" % (getattr(y, "N", None), N)
         err = float(tn.linalg.norm(dense_of(y) - box["ref"]) / tn.linalg.norm(box["ref"]))
         stats.append((label, eps, err / eps))
-        if err > C_CROSS * eps and err > 1e-11:
+        if not (err <= C_CROSS * eps or err <= 1e-11):      # NaN-safe
             return "relative error %.3g = %.3g*eps exceeds %g*eps (%s N=%s)" % (err, err / eps, C_CROSS, label, N)
         return None
     return Case(None, impl, oracle, label, True, desc="function_interpolate %s N=%s eps=%.2g seed=%d" % (mode, N, eps, seed),
